@@ -59,8 +59,14 @@ var settings = map[string]setting{
 	"sendDuration": {env: "SEND_DURATION", yamlPath: "wPool.sendDuration", fileVal: "3ms", fileBad: "zz", envVal: "7ms", envBad: "zz"},
 }
 
+// oneRoot: this case spells the environment's root list with a single root (a list of one behaves differently in slices)
+var oneRoot bool
+
 // expected effective value per setting and source
 func expected(name, src string) any {
+	if name == "rootDirs" && src == "env" && oneRoot {
+		return []string{"/e/only"}
+	}
 	switch name {
 	case "port":
 		return map[string]any{"def": 8888, "file": 1111, "env": 2222}[src]
@@ -111,7 +117,11 @@ func judge(id int, e entry, dir string) result {
 	}
 	sections := map[string][]string{}
 	anyFile := false
+	oneRoot = id%2 == 1
 	for name, s := range settings {
+		if name == "rootDirs" && oneRoot {
+			s.envVal = "/e/only"
+		}
 		os.Unsetenv(s.env)
 		st := e.C[name]
 		var fv string
